@@ -16,7 +16,7 @@ from ..snap import abs_value
 from .c13 import Env, item_eq
 
 UNIVERSES = ["str", "int", "tuple_keyfn", "kitem", "kitem_typed", "str_typed", "tuple_typed", "unhashable_keyfn",
-             "repr_keyfn", "repr_keyfn", "mod_keyfn", "mod_keyfn", "selfkey_typed"]
+             "repr_keyfn", "repr_keyfn", "mod_keyfn", "mod_keyfn", "selfkey_typed", "unhashable_tuple_keyfn"]
 BINOPS = ["or", "and", "sub", "xor"]
 CMPOPS = ["le", "lt", "ge", "gt", "eq", "ne", "isdisjoint"]
 INPLACE = ["ior", "iand", "isub", "ixor"]
@@ -31,10 +31,11 @@ class _FixedSrc:
 
 class SetEnv(Env):
     def __init__(self, universe, faults, enforce):
-        if universe == "unhashable_keyfn":
-            # unhashable items (lists) with a hashable key (their first element)
+        if universe in ("unhashable_keyfn", "unhashable_tuple_keyfn"):
+            # unhashable items with a hashable key (their first element): lists, or tuples that are unhashable only by
+            # content -- (k, [payload]) -- although their class looks hashable
             super().__init__("tuple_keyfn", faults, container="set", enforce=enforce)
-            self.unhashable = True
+            self.unhashable = "list" if universe == "unhashable_keyfn" else "tuple"
         else:
             super().__init__(universe, faults, container="set", enforce=enforce)
             self.unhashable = False
@@ -42,13 +43,15 @@ class SetEnv(Env):
 
     def build(self, v):
         x = super().build(v)
-        if self.unhashable and isinstance(x, tuple):
+        if self.unhashable == "list" and isinstance(x, tuple):
             return list(x)
+        if self.unhashable == "tuple" and isinstance(x, tuple) and x:
+            return (x[0], list(x[1:]))
         return x
 
     def keyable(self, item):
         if self.unhashable:
-            return isinstance(item, list) and bool(item) and isinstance(item[0], (str, int))
+            return isinstance(item, (list, tuple)) and bool(item) and isinstance(item[0], (str, int))
         return super().keyable(item)
 
 
